@@ -212,6 +212,10 @@ def run_history(h):
             rec["result"] = [1, ERR[type(e).__name__]]
             rec["error_text"] = "%s: %s" % (type(e).__name__, str(e)[:200])
             res = None
+        if res is not None:
+            rec["starts"] = [[tid_of[p.task.id], p.placement_time.to(EventTime.Unit.US).time,
+                              p.task.release_time.to(EventTime.Unit.US).time]
+                             for p in res if p.placement_type == PT.PLACE_TASK]
         rec["offered"] = offered_log[n_off] if len(offered_log) > n_off else []
         rec["load_view"] = load_log[n_ld] if len(load_log) > n_ld else None
         after = getters()
